@@ -6,9 +6,10 @@ open OdlModel OdlModel.Functionals
 /-- `val f=<expr> w=<weights> x=<vec>`        → `ok v=<rat|inf|noeval>`          (f(x))
     `conjval f=… w=… x=…`                    → `ok v=…` | `noconj`               (f.convex_conj(x))
     `biconjval f=… w=… x=…`                  → `ok v=…` | `noconj`               (f.convex_conj.convex_conj(x))
+    `conjskel f=… w=… x=…`                   → `ok s=<class skeleton of f.convex_conj>` | `noconj`
     `fy f=… w=… x=… y=…`                     → `ok fx=… gy=… xy=…` | `noconj`    (Fenchel–Young triple) -/
 def handle (l : Line) : Option String := do
-  let (o, f, n) ← parseCase l
+  let (o, f, n) ← parseCase l true
   let x ← vecArg l "x" n
   match l.op with
   | "val" => some s!"ok v={showValue o f x}"
@@ -23,6 +24,10 @@ def handle (l : Line) : Option String := do
         match g.conj o with
         | none => some "noconj"
         | some h => some s!"ok v={showValue o h x}"
+  | "conjskel" =>
+      match f.conj o with
+      | none => some "noconj"
+      | some g => some s!"ok s={"|".intercalate g.skel}"
   | "fy" => do
       let y ← vecArg l "y" n
       match f.conj o with
